@@ -4,6 +4,10 @@ package main
 // built directly (no geoip, no files, no prometheus registry) and the redirect stubs.
 
 import (
+	"io"
+	"log"
+
+	"git.torproject.org/pluggable-transports/snowflake.git/v2/internal/verifapi"
 	"git.torproject.org/pluggable-transports/snowflake.git/v2/common/bridgefingerprint"
 	"github.com/prometheus/client_golang/prometheus"
 )
@@ -18,6 +22,14 @@ func verifNewContext() *BrokerContext {
 	fp1, _ := bridgefingerprint.FingerprintFromHexString(verifFP1)
 	fp2, _ := bridgefingerprint.FingerprintFromHexString(verifFP2)
 	rc := func() *RoundedCounterVec { return &RoundedCounterVec{MetricVec: new(prometheus.MetricVec)} }
+	if verifapi.Native() {
+		// native replay: the real prometheus objects (the stubs do not exist natively)
+		ctx := NewBrokerContext(log.New(io.Discard, "", 0))
+		ctx.bridgeList = &bridgeListHolder{bridgeInfo: map[bridgefingerprint.Fingerprint]BridgeInfo{
+			fp1: {DisplayName: "one", WebSocketAddress: verifURL1, Fingerprint: verifFP1},
+			fp2: {DisplayName: "two", WebSocketAddress: verifURL2, Fingerprint: verifFP2}}}
+		return ctx
+	}
 	pm := &PromMetrics{ProxyTotal: new(prometheus.CounterVec), AvailableProxies: new(prometheus.GaugeVec),
 		ProxyPollTotal: rc(), ClientPollTotal: rc(), ProxyPollWithRelayURLExtensionTotal: rc(),
 		ProxyPollWithoutRelayURLExtensionTotal: rc(), ProxyPollRejectedForRelayURLExtensionTotal: rc()}
